@@ -2,8 +2,9 @@
  *
  * The exporter is an export module whose export() performs 4 operations taken from everything export.h allows a
  * module to do:
- *    vbi_export_write, vbi_export_putc, vbi_export_puts (string / NULL), vbi_export_flush, and
- *    "grow the buffer, then store directly into e->buffer.data" (the ppm/png style).
+ *    vbi_export_write, vbi_export_putc, vbi_export_puts (string / NULL), vbi_export_flush,
+ *    "grow the buffer, then store directly into e->buffer.data" (the ppm/png style), and (obligation write_printf,
+ *    PFMASK) vbi_export_printf with the template "%s" through a C99 vsnprintf model (models/c16_stubs.c).
  * Byte counts (L0..L3) and operation kinds (KINDS) come from the grid (every kind that appends that many bytes is
  * enumerated), byte contents and the exporter's return value are symbolic.  The byte sequence it means to emit (REF,
  * TOTAL) is computed by the harness from the same operation list.
@@ -43,7 +44,11 @@ static const uint8_t OPLEN[4] = { L0, L1, L2, L3 };
 #endif
 #define RMAX (LSUM > 0 ? LSUM : 1)
 
-enum { K_WRITE, K_PUTC, K_PUTS, K_PUTS_NULL, K_FLUSH, K_DIRECT, K_N };
+enum { K_WRITE, K_PUTC, K_PUTS, K_PUTS_NULL, K_FLUSH, K_DIRECT, K_PRINTF, K_N };
+/* PFMASK (grid): bit i set = operation i is vbi_export_printf(e, "%s", <string of OPLEN[i] characters>), whatever KINDS says */
+#ifndef PFMASK
+#define PFMASK 0
+#endif
 
 struct c16_op { uint8_t kind, len; uint8_t data[LMAX + 1]; };
 static struct c16_op OPS[NOPS];
@@ -69,6 +74,7 @@ static vbi_bool c16_export(vbi_export *e, vbi_page *pg)
     case K_PUTS: r = vbi_export_puts(e, PUTS_SRC[i]); break;
     case K_PUTS_NULL: r = vbi_export_puts(e, NULL); break;
     case K_FLUSH: r = vbi_export_flush(e); break;
+    case K_PRINTF: r = vbi_export_printf(e, "%s", PUTS_SRC[i]); break;
     default:
       r = _vbi_export_grow_buffer_space(e, o->len);
       if (r) {
@@ -113,6 +119,7 @@ static void c16_setup(void)
       o->kind = (o->len == 0) ? k0[dg % 5] : (o->len == 1) ? k1[dg % 4] : kn[dg % 3];
     }
 #endif
+    if ((PFMASK >> i) & 1) o->kind = K_PRINTF;
     in_bytes(o->data, LMAX);
     o->data[LMAX] = 0;
     for (j = 0; j < LMAX; j++) PUTS_SRC[i][j] = (j < o->len) ? (char) ('a' + 7 * i + j) : 0;
@@ -124,7 +131,7 @@ static void c16_setup(void)
   for (i = 0; i < NOPS; i++) {
     struct c16_op *o = &OPS[i];
     for (j = 0; j < LMAX; j++)
-      if (j < o->len) REF[TOTAL + j] = (o->kind == K_PUTS) ? (uint8_t) PUTS_SRC[i][j] : o->data[j];
+      if (j < o->len) REF[TOTAL + j] = (o->kind == K_PUTS || o->kind == K_PRINTF) ? (uint8_t) PUTS_SRC[i][j] : o->data[j];
     TOTAL += o->len;
   }
   memset(&E, 0, sizeof E);
